@@ -332,4 +332,4 @@ func callersOfNewHelpers(P *Program) map[string]bool {
 
 // callKeyedRules: rules whose obligations are "at every call of helper X, ...": not to be re-established on the view that
 // walks through baseline helpers.
-var callKeyedRules = map[string]bool{"lookup-justified": true, "callee-precondition": true, "sentinel-guard": true}
+var callKeyedRules = map[string]bool{"lookup-justified": true, "callee-precondition": true, "sentinel-guard": true, "dirty-lookup-current": true, "dirty-write-exists": true}
